@@ -70,6 +70,14 @@ DIRECTED = [
     ([("from other import Circle", "t"), ("from shapes import Circle", "f")], ["area_of"], 0),
     ([("from shapes import Circle", "t"), ("from other import Circle", "m")], ["area_of"], 0),   # kf_shadow (module level)
     ([("from shapes import *", "t"), ("from shapes import Circle", "m")], ["area_of"], 0),       # kf_shadow (star quirk)
+    # one-line compound statements holding an import the stub also needs (SimpleStatementSuite)
+    ([("from shapes import Circle", "Y")], ["area_of"], 0),
+    ([("from shapes import Circle", "F")], ["area_of"], 0),
+    ([("from geo.pts import Point", "I"), ("from shapes import Circle", "Y")], ["area_of", "origin"], 0),
+    # an existing TYPE_CHECKING block imports the object under another local name / the plain name next to other aliases
+    ([("from shapes import Circle as C", "c")], ["area_of"], 0),
+    ([("from geo.pts import Point as P", "c"), ("from shapes import Circle", "c")], ["area_of", "origin"], 0),
+    ([("from typing_helpers import Helper as H", "c"), ("from other import Thing as Circle", "c")], ["helper", "area_of"], 0),
 ]
 
 FX_MODULES = ("shapes", "geo.pts", "other", "typings", "typing_helpers", "mypy_extensions_compat")
@@ -294,16 +302,16 @@ def run(ctx):
     failures.sort(key=lambda f: (1 if f.get("finding") else 0))
     return {
         "evaluations": len(cases), "distinct_nontrivial": len(nontrivial),
-        "rule": "25 directed witnesses (the design-phase defects and their neighbours), then random sources: optional docstring / "
+        "rule": "31 directed witnesses (the design-phase defects and their neighbours), then random sources: optional docstring / "
                 "__future__ import, 0-5 import statements from a 32-entry pool (import a.b, aliases, star, typing, "
                 "mypy_extensions, clashing names) placed at the top, after a statement, in a function, under an existing "
-                "TYPE_CHECKING block or in try/except, 1-3 functions whose stub is rendered by MonkeyType's own "
+                "TYPE_CHECKING block (also aliased), in try/except, or in one-line try / def / if suites, 1-3 functions whose stub is rendered by MonkeyType's own "
                 "build_module_stubs_from_traces (k in {0,5}); every case goes through the real apply step, "
                 "get_newly_imported_items and apply_stub_using_libcst(..., True); verdict in Coq; then source and result are "
                 "imported in fresh interpreters and run() compared; the results of all directed and a quarter of the random "
                 "cases are then the source of a second application of the same stub (re-application stream). non-trivial = the stub brings a newly imported item and "
                 "the source has an import; distinct by hash of the reified case",
-        "samples": [{"source": c["source"], "stub": c["stub"], "output": c["output"]} for c in cases[25:28]],
+        "samples": [{"source": c["source"], "stub": c["stub"], "output": c["output"]} for c in cases[31:34]],
         "distribution": dist, "failures": failures, "mismatches": mismatches,
         "relation": "module_eqb (confine stub src applied) out  /\\  set_eqb (newly stub src) impl_newly",
     }
